@@ -218,7 +218,7 @@ func settledLexerGoroutines() int {
 // ---------- generators ----------
 
 var fieldNames = []string{"a", "b", "foo", "Bar_9", "z0", "x_y", "COUNTRY", "q"}
-var hostileValues = []string{"", "x", "bar", "\"", "\"\"", "a\"b", "\"a", "a\"", "a\nb", "ü✓", "\xff\xfe", "a & b", "( x )", "$1", ";", "a,b", "^", "=", "\t ", "\"\"\"", "'", "\\", "a\\\"b", "\x00", "日本"}
+var hostileValues = []string{"", "x", "bar", "\"", "\"\"", "a\"b", "\"a", "a\"", "a\nb", "ü✓", "\xff\xfe", "a & b", "( x )", "$1", ";", "a,b", "^", "=", "\t ", "\"\"\"", "'", "\\", "a\\\"b", "\x00", "日本", "%", "100%", "%s", "%d%%", "50% off", "\uFFFD", "a\uFFFDb", "%!v(MISSING)"}
 
 func genPT(r *Rng, depth int, allowPh bool) *PT {
 	if depth <= 0 || r.Chance(1, 3) {
